@@ -165,8 +165,16 @@ func sqlTokens(s string) []sqlTok {
 		case isWordB(b):
 			j := i
 			w := make([]byte, 0, 8)
-			for j < len(s) && isWordB(s[j]) {
+			inQuote := false
+			for j < len(s) && (inQuote || isWordB(s[j])) {
 				c := s[j]
+				// a backquoted identifier directly after a bare word (OR`b`) starts a new token
+				if c == '`' {
+					if !inQuote && len(w) > 0 && w[len(w)-1] != '.' {
+						break
+					}
+					inQuote = !inQuote
+				}
 				// lower-case letters without branching on the case bit
 				if verifrt.And((c|0x20) >= 'a', (c|0x20) <= 'z') {
 					c = c | 0x20
